@@ -6,6 +6,7 @@ CONSTANTS
   Depth = 0
   CatCut = 2
   WordCut = 2
+  Mode = "train"
   AfixCut = 1
   SpellOf <- MCSpellOf
 INVARIANT FilesAreTheCounts
@@ -13,6 +14,7 @@ INVARIANT OneSamplePerKeptTree
 INVARIANT ReservedWordsAlwaysWritten
 INVARIANT SeenRulesOverTargetsOnly
 INVARIANT AfixReservedAlwaysWritten
+INVARIANT ConllBlocksAreHeadFirstTrees
 INVARIANT FourAffixesPerLeaf
 INVARIANT ShortWordsFeedTheMarkers
 INVARIANT BankIsTheTrees
